@@ -50,6 +50,15 @@ def hiddenNumberParams (n : Nat) (r s z : Int) : Except PyErr (Nat × Nat) :=
   | .error e => .error e
   | .ok si => .ok (mulMod z si n, mulMod r si n)
 
+/-- textbook ECDSA `s` (FIPS 186-4 section 6.4): `k⁻¹·(z + r·d) mod n`; raises as
+`gmpy2.invert` does when `k` has no inverse. Specification-side definition (the library has no
+signer): it is compared on every run with the harness's independent reference signer, and
+`Props/C09Sign.lean` proves that what it produces is what `hiddenNumberParams` inverts. -/
+def signS (n : Nat) (r z d k : Int) : Except PyErr Nat :=
+  match invMod k n with
+  | .error e => .error e
+  | .ok ki => .ok (mulMod (z + r * d) ki n)
+
 /-! ### PublicPoint / ECDSAValues (protobuf `bytes` fields → integers) -/
 
 /-- `PublicPoint(key)`: `(Bytes2Int(key.x), Bytes2Int(key.y))`. -/
